@@ -745,7 +745,7 @@ class SqwEngine(Engine):
         return 1600 if tier == "quick" else 50000
 
     def timeout(self, tier):
-        return 180 if tier == "quick" else 600
+        return 900 if tier == "quick" else 1800
 
     def setup(self):
         import signal
